@@ -960,7 +960,7 @@ def parse_verus_output(out, path, text):
         head = b.splitlines()[0]
         if head.startswith("error: aborting") or "previous error" in head:
             continue
-        locs = [(int(x)) for x in re.findall(r"--> %s:(\d+):\d+" % re.escape(base), b)]
+        locs = [(int(x)) for x in re.findall(r"(?:-->|:::) %s:(\d+):\d+" % re.escape(base), b)]
         # the function in which the failure was found is reported by the location *inside a body* when there is one
         # ("at the end of the function body" / failing call site); otherwise the first location
         msg = head[len("error"):].lstrip(": ").strip()
